@@ -268,8 +268,15 @@ def realize(world: World, classes: Any, renderers: Dict[str, Any], via_add: bool
                   comment=d["comment"], abstract=d["abstract"], properties=dict(d["properties"]) or None)
         TC = (CS if d.get("subclass") else C).Table
         if d.get("ctor_cols", True):
-            t = TC(d["name"], columns=[real[c] for c in d["cols"]],
-                   indexes=[real[i] for i in d["idxs"]], **kw)
+            # the constructor documents Iterable arguments: a tuple and a generator are as good as a list
+            style = len(d["name"] or "") % 3
+            cols_arg: Any = [real[c] for c in d["cols"]]
+            idx_arg: Any = [real[i] for i in d["idxs"]]
+            if style == 1:
+                cols_arg, idx_arg = tuple(cols_arg), tuple(idx_arg)
+            elif style == 2:
+                cols_arg, idx_arg = (x for x in cols_arg), (x for x in idx_arg)
+            t = TC(d["name"], columns=cols_arg, indexes=idx_arg, **kw)
         else:
             t = TC(d["name"], **kw)
             for c in d["cols"]:
@@ -283,6 +290,8 @@ def realize(world: World, classes: Any, renderers: Dict[str, Any], via_add: bool
         d = m[h]
         c1 = [real[c] for c in d["col1"]]
         c2 = [real[c] for c in d["col2"]]
+        if len(c1) > 1 and len(d["name"] or "") % 2:
+            c1, c2 = tuple(c1), tuple(c2)   # Collection[Column]: tuples are documented to be fine
         real[h] = (CS if d.get("subclass") else C).Reference(d["type"], c1[0] if len(c1) == 1 else c1, c2[0] if len(c2) == 1 else c2,
                               name=d["name"], comment=d["comment"], on_update=d["on_update"],
                               on_delete=d["on_delete"], inline=d["inline"])
@@ -315,16 +324,20 @@ def realize(world: World, classes: Any, renderers: Dict[str, Any], via_add: bool
                             allow_properties=d["allow_properties"])
         real[h] = db
         if via_add:
-            for x in d["enums"]:
-                db.add(real[x])
-            for x in d["tables"]:
-                db.add(real[x])
-            for x in d["groups"]:
-                db.add(real[x])
-            for x in d["notes"]:
-                db.add(real[x])
-            if d["project"]:
-                db.add(real[d["project"]])
+            # the order in which elements of different kinds are added is the caller's business (references
+            # come after the tables they touch); per kind the model's list order is kept
+            kinds_order = ["enums", "tables", "groups", "notes", "project"]
+            rot = int(d.get("add_order", 0)) % len(kinds_order)
+            kinds_order = kinds_order[rot:] + kinds_order[:rot]
+            if int(d.get("add_order", 0)) % 2:
+                kinds_order.reverse()
+            for kind in kinds_order:
+                if kind == "project":
+                    if d["project"]:
+                        db.add(real[d["project"]])
+                else:
+                    for x in d[kind]:
+                        db.add(real[x])
             for x in d["refs"]:
                 db.add(real[x])
     return real
